@@ -299,7 +299,8 @@ package bbolt
 //@   requires tx.db != nil && tx.writable && !tx.db.NoSync ==> unsynced == 0
 //@   panics when tx.db != nil && tx.writable && tx.db.StrictMode
 //@   callback ensures tx.db == nil
-//@   ensures [closedfield] old(tx.db) != nil && old(tx.writable) ==> tx.db == nil
+//@   loop 1 invariant tx.db == nil
+//@   ensures [closedfield] (old(tx.db) != nil && old(tx.writable)) || old(tx.db) == nil ==> tx.db == nil
 //@   skip writeMeta.panics0 because root page and freelist page below the high-water mark is a tree/allocator invariant (A-tree, A-cow): not derivable from the contracts in reach
 //@   ensures [closedtx] old(tx.db) == nil ==> err == berrors.ErrTxClosed
 //@   ensures [readonly] old(tx.db) != nil && !old(tx.writable) ==> err == berrors.ErrTxNotWritable
